@@ -370,6 +370,7 @@ package badger
 //@   assert[done-on-error] before call doneCommit : arg1 == ret0(newCommitTs#1)
 //@   assert[conflict-sends-nothing] before return : ret1(newCommitTs#1) ==> result1 == ErrConflict && !called(sendToWriteCh#1)
 //@   assert[duplicates-before-pending] before call processEntry#1 : arg0 == txn.duplicateWrites[rangeindex#3 + 1]
+//@   assert[send-error-leaves-no-trace] before return : called(sendToWriteCh#1) && ret1(sendToWriteCh#1) != nil && txn.db.orc.detectConflicts && len(txn.db.orc.committedTxns) >= 1 ==> txn.db.orc.committedTxns[len(txn.db.orc.committedTxns)-1].ts != ret0(newCommitTs#1)
 //@   assert[send-error-returned] before return : called(sendToWriteCh#1) && ret1(sendToWriteCh#1) != nil ==> called(doneCommit#1) && result1 == ret1(sendToWriteCh#1)
 
 // ---- DropPrefix (C29): "no key starting with the prefix" is a statement about user keys ----
@@ -621,3 +622,29 @@ package badger
 //@   assert[deleted-or-expired-tested] before call isDeletedOrExpired : arg0 == ret(Value#1).Meta && arg1 == ret(Value#1).ExpiresAt
 //@   assert[deleted-or-expired-hidden] before call fill#2 : !ret(isDeletedOrExpired#1)
 //@   assert[key-remembered-first] before call SafeCopy#1 : !called(isDeletedOrExpired) && arg0 == it.lastKey
+
+// ---- streams (C25): one snapshot per run ----
+
+// Every producer goroutine of one Stream run must read the same snapshot. With a caller-given
+// read timestamp (managed mode) that is NewTransactionAt(st.readTs). Otherwise each producer
+// obtains its own read timestamp from db.NewTransaction when it happens to start: the
+// obligation below fails on the unchanged tree (known finding, see /verif/known_findings.json).
+//@ func (*Stream).produceKVs
+//@   props C25
+//@   light
+//@   assert[managed-snapshot] before call NewTransactionAt : arg1 == st.readTs && !arg2
+//@   assert[one-snapshot-per-run] before return : !called(NewTransaction#1)
+
+// ---- values behind a pointer (C06, C15) ----
+
+// The value an item yields is the stored one, or an error is reported. A value-log read that
+// fails is logged and replaced by a nil error with an empty value: the obligation below fails
+// on the unchanged tree (known finding: reachable when value-log GC deletes the file an item
+// obtained from Txn.Get points into, see /verif/known_findings.json).
+//@ func (*Item).yieldItemValue
+//@   props C06 C15
+//@   light
+//@   assert[inline-copy] before call copy : (item.meta & bitValuePointer) == 0 && arg1 == item.vptr
+//@   assert[pointer-decoded] before call Decode#1 : arg1 == item.vptr
+//@   assert[read-at-pointer] before call Read : arg1 == vp
+//@   assert[value-or-error] before return : called(Read#1) && ret2(Read#1) != nil ==> result2 != nil
